@@ -76,7 +76,12 @@ func totRead(format string, doc []byte, opt int) string {
 		case "vtt":
 			_, err = astisub.ReadFromWebVTT(bytes.NewReader(doc))
 		case "ssa":
-			_, err = astisub.ReadFromSSA(bytes.NewReader(doc))
+			if opt%4 == 3 {
+				// the options are a public struct of optional callbacks: none set
+				_, err = astisub.ReadFromSSAWithOptions(bytes.NewReader(doc), astisub.SSAOptions{})
+			} else {
+				_, err = astisub.ReadFromSSA(bytes.NewReader(doc))
+			}
 		case "stl":
 			_, err = astisub.ReadFromSTL(bytes.NewReader(doc), astisub.STLOptions{IgnoreTimecodeStartOfProgramme: opt%2 == 1})
 		case "ttml":
@@ -387,6 +392,24 @@ func init() {
 		}
 		for _, f := range totFormats {
 			c.do(fmt.Sprintf("tot.read %s 0 x", f))
+		}
+		// TTML time expressions in frames and ticks, whole and fractional, with the rates absent, zero, negative, huge
+		for _, rate := range []string{"", ` ttp:frameRate="0"`, ` ttp:frameRate="-25"`, ` ttp:frameRate="25" ttp:tickRate="0"`, ` ttp:tickRate="-1"`,
+			` ttp:frameRate="99999999999999999999"`, ` ttp:frameRate="x"`} {
+			for _, tm := range []string{"12f", "12.5f", "0.5f", ".5f", "3t", "3.25t", "00:00:01:12", "00:00:01:12.5", "1.5h", "99999999999999999999f", "1e3f", "-1f"} {
+				d := `<tt xmlns="http://www.w3.org/ns/ttml" xmlns:ttp="http://www.w3.org/ns/ttml#parameter"` + rate + `><body><div><p begin="` + tm + `" end="` + tm + `">x</p></div></body></tt>`
+				c.do(fmt.Sprintf("tot.read ttml 0 %s", encBytes([]byte(d))))
+				c.count("ttml-times")
+			}
+		}
+		// SSA documents with junk lines in every section, read with the zero-value options
+		for i := 0; i < 40; i++ {
+			d := validDoc(r, "ssa")
+			d = bytes.Replace(d, []byte("\nFormat:"), []byte("\nComment: a note\nStyl: x\njunk\nFormat:"), -1)
+			d = append(d, []byte("\nComment: trailing\n[Unknown]\nx: y\n")...)
+			c.do(fmt.Sprintf("tot.read ssa 3 %s", encBytes(d)))
+			c.do(fmt.Sprintf("tot.read ssa 3 %s", encBytes(bytes.Replace(d, []byte("Format:"), []byte("Format:\nComment: after format\nStyl: y"), 1))))
+			c.count("ssa-options")
 		}
 	}}
 
